@@ -49,7 +49,7 @@ CHECKS = {
     "C18": (False, "eight SSA shape obligations on commonmark.Walk (W1–W8): child-function indirection, prune/abort edges, cursor coherence, post-frame ordering, traversal order",
             "Structural obligations each of which is necessary for the documented Walk contract: custom child functions used everywhere, prune path pushes nothing, abort path returns without further calls, child cursors carry the parent/index/nearest block used to fetch them, root cursor has index −1 and no parent, the post frame is pushed below the children, children are pushed in descending index and popped from the end. That these add up to exactly-once document order is an inductive argument not decided here.",
             "go/ssa form of Walk"),
-    "C19": (False, "whole-module write-effect / ownership analysis over SSA with a field-based heap abstraction (EFF-G, EFF-R, EFF-X, EFF-U, DET)",
+    "C19": (True, "whole-module write-effect / ownership analysis over SSA with a field-based heap abstraction (EFF-G, EFF-R, EFF-X, EFF-U, DET)",
             "No instruction outside package initialisers writes package-level state; every write reachable from Render/AppendBlock/RenderHTML/Format/Walk and the exported accessors targets call-owned memory (fresh allocations, scratch-typed per-call state, the documented output parameter); external callees are stateless per table; no goroutine, channel, select, unsafe beyond the audited node conversions, or order-observable map iteration. Covers all interleavings at once because no shared writable location exists.",
             "Go memory/type safety; external callee table (DESIGN.md Appendix C); user callbacks are the caller's"),
     "C20": (False, "SSA latch, write-guard and who-may-write rules on the format writer, result provenance, write-effect analysis",
